@@ -22,6 +22,7 @@ type vfCrash struct {
 	Kind  string // close, abort, readfail, writefail, connclose
 	Ep    int
 	IL    bool
+	ZC    bool // zero checksums negotiated in both directions (an ABORT travels with checksum 0 then)
 }
 
 var vfCallID int64
@@ -175,8 +176,8 @@ func vfCrashRun(w *vfWorld, base string, stop func() bool) {
 
 func vfRunCrash(t *testing.T, tr *vfTrace, x vfCrash) (nwire int, hung bool) {
 	hung = vfBubble(t, x.Label, func() {
-		A := vfEpCfg{InitTSN: 21, Tag: 0xAC, IL: x.IL}
-		B := vfEpCfg{InitTSN: 0xFFFFFFFA, Tag: 0xBC, IL: x.IL, Server: true}
+		A := vfEpCfg{InitTSN: 21, Tag: 0xAC, IL: x.IL, ZC: x.ZC}
+		B := vfEpCfg{InitTSN: 0xFFFFFFFA, Tag: 0xBC, IL: x.IL, Server: true, ZC: x.ZC}
 		if x.Base == "blockwrite" {
 			A.BlockWrite, A.Buf, B.Buf = true, 8192, 8192
 		}
@@ -311,7 +312,8 @@ func init() {
 							if k%nshards != shard {
 								continue
 							}
-							x := vfCrash{Label: fmt.Sprintf("crash-%s-il%v-%s-ep%d-at%d#%d", base, il, kind, ep, at, k), Base: base, At: at, Kind: kind, Ep: ep, IL: il}
+							zc := (at/stride+ep)%2 == 1
+							x := vfCrash{Label: fmt.Sprintf("crash-%s-il%v-zc%v-%s-ep%d-at%d#%d", base, il, zc, kind, ep, at, k), Base: base, At: at, Kind: kind, Ep: ep, IL: il, ZC: zc}
 							vfWriteJSON(journal, map[string]any{"scenario": x.Label})
 							vfRunCrash(t, tr, x)
 						}
